@@ -63,6 +63,7 @@ pub struct Case {
 }
 
 pub const FILE: &str = "out.mps.gz";
+pub const MAX_BUDGET: u64 = 449;
 
 impl LinInst {
     pub fn to_v1(&self) -> v1::Instance {
@@ -309,6 +310,22 @@ impl Prop for C18 {
         let (chunk_r, chunk_w) = if mode < 4 { (Chunk::Whole, Chunk::Whole) } else { (gen_chunk(rng), gen_chunk(rng)) };
         Case { inst, hash_seed: rng.next(), faults, chunk_r, chunk_w }
     }
+    fn enum_plan(&self, tier: Tier, seed: u64) -> Vec<(u64, u64)> {
+        // the disk fills up after every possible byte budget 0..=MAX_BUDGET of N instances (the compressed files
+        // are 100-420 bytes long; a budget beyond the size never fires and the run is an ordinary round trip)
+        let n = match tier {
+            Tier::Quick => 12,
+            Tier::Thorough => 1000,
+        };
+        (0..n).map(|i| (MAX_BUDGET + 1, crate::rng::mix(&[seed, 0xC18, i]))).collect()
+    }
+    fn enum_case(&self, gs: u64, k: u64) -> Case {
+        let mut rng = Rng::new(gs);
+        let mut inst = gen_inst(&mut rng);
+        inst.nonlinear = None;
+        let faults = vec![Fault { op: 0, role: FILE.into(), dir: Dir::W, at: At::Byte(k), act: Act::Enospc }];
+        Case { inst, hash_seed: rng.next(), faults, chunk_r: Chunk::Whole, chunk_w: if k % 3 == 0 { Chunk::Rand { max: 7, seed: gs } } else { Chunk::Whole } }
+    }
     fn sim_params(&self, c: &Case) -> SimParams {
         SimParams { faults: c.faults.clone(), chunk_r: c.chunk_r.clone(), chunk_w: c.chunk_w.clone(), hash_seed: c.hash_seed, ..Default::default() }
     }
@@ -526,7 +543,7 @@ impl Prop for C18 {
     }
 
     fn rule(&self) -> String {
-        "one run = (linear instance from the seeded generator: 0-5 variables of all kinds with absent/finite/half-infinite/infinite/negative bounds, 0-4 constraints incl. constant-only, non-contiguous IDs, either sense, 10% with one nonlinear part; write-side fault plan: ENOSPC after a byte budget, EIO, EINTR, short writes, open failure; read-side plan: EIO at byte k, EINTR, short reads, open failure; chunking of every transfer; hash seed). distinct = distinct FNV hash of the event log (every simulated system call with role, size and result; digest of every API result); non-trivial = the instance has at least one term or constraint, or a fault fired".into()
+        "one run = (linear instance from the seeded generator: 0-5 variables of all kinds with absent/finite/half-infinite/infinite/negative bounds, 0-4 constraints incl. constant-only, non-contiguous IDs, either sense, 10% with one nonlinear part; write-side fault plan: ENOSPC after a byte budget, EIO, EINTR, short writes, open failure; read-side plan: EIO at byte k, EINTR, short reads, open failure; chunking of every transfer; hash seed). Enumerated part: ENOSPC after every byte budget 0..=449 for each of N instances. distinct = distinct FNV hash of the event log (every simulated system call with role, size and result; digest of every API result); non-trivial = the instance has at least one term or constraint, or a fault fired".into()
     }
     fn assumptions(&self) -> Vec<String> {
         vec![
